@@ -81,6 +81,10 @@ pub fn csv_roundtrip(store: &mut AnnotationStore, dir: &str) -> Option<RoundTrip
         Ok(o) => o,
         Err(p) => return Some(RoundTripFail { symptom: format!("observation-panic:{}", msg_class(&p)), detail: String::new() }),
     };
+    // precondition class of the recorded temporary-id defect: a removed data item below a live one (the handles the
+    // writer encodes in !D<n> are then no longer the positions the reader assigns)
+    let gaps = store.datasets().any(|ds| ds.data().count() != ds.data().map(|d| d.handle().as_usize() + 1).max().unwrap_or(0));
+    let gaps = if gaps { "data-gaps=yes" } else { "data-gaps=no" };
     let r = catch(|| store.to_file(&file));
     match r {
         Err(p) => return Some(RoundTripFail { symptom: format!("save-panic:{}", msg_class(&p)), detail: String::new() }),
@@ -89,7 +93,7 @@ pub fn csv_roundtrip(store: &mut AnnotationStore, dir: &str) -> Option<RoundTrip
     }
     let loaded = match catch(|| AnnotationStore::from_file(&file, Config::default())) {
         Err(p) => return Some(RoundTripFail { symptom: format!("load-panic:{}", msg_class(&p)), detail: csv_files(dir) }),
-        Ok(Err(e)) => return Some(RoundTripFail { symptom: format!("load-err:{}", err_class(&e)), detail: format!("{} -- files: {}", e, csv_files(dir)) }),
+        Ok(Err(e)) => return Some(RoundTripFail { symptom: format!("load-err:{}|{}", err_class(&e), gaps), detail: format!("{} -- files: {}", e, csv_files(dir)) }),
         Ok(Ok(s)) => s,
     };
     let reloaded = match catch(|| ser_abstract(&loaded, false, false)) {
@@ -129,13 +133,13 @@ pub fn csv_roundtrip(store: &mut AnnotationStore, dir: &str) -> Option<RoundTrip
         norm(&mut original);
         norm(&mut reloaded);
         if let Some((section, detail)) = diff_ser(&original, &reloaded) {
-            return Some(RoundTripFail { symptom: format!("differs@{}:{}", section, diff_aspect(&detail)), detail: format!("{} -- files: {}", detail, csv_files(dir)) });
+            return Some(RoundTripFail { symptom: format!("differs@{}:{}|{}", section, diff_aspect(&detail), gaps), detail: format!("{} -- files: {}", detail, csv_files(dir)) });
         }
         let _ = std::fs::remove_dir_all(dir);
         return Some(RoundTripFail { symptom: "idless-data-reloaded-with-temporary-id-as-public-id".into(), detail: "data without public id is written as !D<n> and comes back carrying that string as its public id".into() });
     }
     if let Some((section, detail)) = diff_ser(&original, &reloaded) {
-        return Some(RoundTripFail { symptom: format!("differs@{}:{}", section, diff_aspect(&detail)), detail: format!("{} -- files: {}", detail, csv_files(dir)) });
+        return Some(RoundTripFail { symptom: format!("differs@{}:{}|{}", section, diff_aspect(&detail), gaps), detail: format!("{} -- files: {}", detail, csv_files(dir)) });
     }
     let _ = std::fs::remove_dir_all(dir);
     None
@@ -173,7 +177,7 @@ impl Oracle for C15 {
 }
 
 pub fn run(rep: &Reporter) -> Coverage {
-    let workdir = format!("/verif/.work/{}", std::process::id());
+    let workdir = crate::util::work_dir("w");
     std::fs::create_dir_all(&workdir).expect("workdir");
     let oracle = C15 { roundtrips: AtomicU64::new(0), workdir: workdir.clone() };
     let mut cov = Coverage::default();
@@ -232,7 +236,7 @@ pub fn replay(rep: &Reporter, case: &Value) {
     for o in &hist {
         println!("   {}", o.short());
     }
-    let workdir = format!("/verif/.work/{}", std::process::id());
+    let workdir = crate::util::work_dir("w");
     let (mut store, _) = replay_real(&hist);
     match csv_roundtrip(&mut store, &workdir) {
         Some(f) => {
